@@ -64,7 +64,7 @@ func (a Int) ConvertConstScalar(t ScalarType) ConstScalar {
   case IntType:
     return a
   default:
-    return NewConstScalar(t, a.GetFloat64())
+    return convertConstScalar(a, t)
   }
 }
 func (a Int) ConvertScalar(t ScalarType) Scalar {
